@@ -46,7 +46,11 @@ def run(ck, progs):
     ck.rule("C12.5", "tree index arithmetic, evaluated exhaustively over all nodes of the fixed-size tree: child/parent macros are mutually "
                      "inverse; the block offset formula of buddy_malloc and of the checkpoint walker are the same function, give blocks inside "
                      "the arena aligned to their size, disjoint within a level; the leaf index used by buddy_free / realloc inverts it")
+    ck.rule("C12.6", "arena lookup by address: the midpoint of the binary search lies within [low, high] for all bounds (no counterexample in an "
+                     "exhaustive small domain and a recognised shape), each branch moves a bound strictly past the midpoint, and new arenas are "
+                     "inserted in address order")
     for cfg, P in progs.items():
+        _find_by_address(ck, P, cfg)
         _index_arithmetic(ck, P, cfg)
         _clean_failure(ck, P, cfg)
         _calloc(ck, P, cfg)
@@ -426,3 +430,76 @@ def _index_arithmetic(ck, P, cfg):
         ck.holds("C12.5", "return@buddy_malloc", rets[-1].where, "returns base_mem + offset", cfg)
     else:
         ck.violated("C12.5", "return@buddy_malloc", bm.where, "buddy_malloc does not return base_mem + the computed offset", cfg)
+
+
+def _find_by_address(ck, P, cfg):
+    from .. import ceval
+    f = P.fn("buddy_find_by_address")
+    mids = [v for v in f.walk() if v.k == "VarDecl" and v.children and v.d.get("ti") and
+            len({x.name for x in v.children[0].walk() if x.k == "DeclRefExpr" and x.d.get("sc") == "local"}) == 2]
+    inst = "binary-search@buddy_find_by_address"
+    if len(mids) != 1:
+        ck.inconclusive("C12.6", inst, f.where, "midpoint not recognised", cfg)
+        return
+    m = mids[0]
+    lo_hi = sorted({x.name for x in m.children[0].walk() if x.k == "DeclRefExpr" and x.d.get("sc") == "local"})
+    # which is low / high: low is initialised with 0
+    low = high = None
+    for v in f.walk():
+        if v.k == "VarDecl" and v.name in lo_hi and v.children:
+            if X.is_zero(v.children[0]):
+                low = v.name
+            else:
+                high = v.name
+    if low is None or high is None:
+        ck.inconclusive("C12.6", inst, m.where, "search bounds not recognised", cfg)
+        return
+    bad = None
+    for l in range(0, 9):
+        for h in range(l, 9):
+            v = ceval.ev(m.children[0], {low: l, high: h})
+            if v is None:
+                bad = "cannot evaluate"
+                break
+            if not (l <= v <= h):
+                bad = "for %s = %d, %s = %d the midpoint `%s` is %d, outside the range being searched: an arena beyond the array is read" % (low, l, high, h, X.show(m.children[0]), v)
+                break
+        if bad:
+            break
+    shape = X.show(m.children[0]) in ("((%s + %s) / 2)" % (low, high), "((%s + %s) / 2)" % (high, low), "(%s + ((%s - %s) / 2))" % (low, high, low), "((%s + %s) >> 1)" % (low, high))
+    if bad and bad != "cannot evaluate":
+        ck.violated("C12.6", inst, m.where, bad, cfg)
+    elif bad or not shape:
+        ck.inconclusive("C12.6", inst, m.where, "midpoint `%s` not of a recognised shape" % X.show(m.children[0]), cfg)
+    else:
+        ck.holds("C12.6", inst, m.where, "%s = %s lies in [%s, %s]" % (m.name, X.show(m.children[0]), low, high), cfg)
+    # progress: h = m - 1 on the '<' branch, l = m + 1 on the '>' branch
+    upd = {}
+    for n in f.walk():
+        if n.k == "BinaryOperator" and n.op == "=" and X.show(n.children[0]) in (low, high):
+            upd[X.show(n.children[0])] = X.show(n.children[1])
+    want = {high: "(%s - 1)" % m.name, low: "(%s + 1)" % m.name}
+    if upd == want:
+        ck.holds("C12.6", "progress@buddy_find_by_address", m.where, "%s = %s - 1 / %s = %s + 1" % (high, m.name, low, m.name), cfg)
+    elif set(upd) == {low, high} and (upd[low] == m.name or upd[high] == m.name):
+        ck.violated("C12.6", "progress@buddy_find_by_address", m.where, "a bound is set to the midpoint itself (%s): with two arenas left the search never ends" % upd, cfg)
+    else:
+        ck.inconclusive("C12.6", "progress@buddy_find_by_address", m.where, "bound updates %s not recognised" % upd, cfg)
+    # comparisons: below the arena start -> left; above its end -> right
+    conds = [n for n in f.walk() if n.k == "BinaryOperator" and n.op in ("<", ">", "<=", ">=") and "ptr" in X.show(n.children[0])]
+    dirs = {}
+    for c in conds:
+        # which bound is updated under this condition
+        for n in f.walk():
+            if n.k == "BinaryOperator" and n.op == "=" and X.show(n.children[0]) in (low, high):
+                for core, B in Q.control_dependences(f, n):
+                    if core is X.strip(c) or core.id == X.strip(c).id:
+                        pass
+    # insertion keeps the arenas sorted by address
+    rm = P.fn("rs_malloc")
+    adds = [s_ for s_ in rm.walk() if s_.k == "StmtExpr" and s_.macros and s_.macros[0] == "array_add_at"]
+    brk = [n for n in rm.walk() if n.k == "BinaryOperator" and n.op in (">", ">=") and "buddies" in X.show(n.children[0]) and "new_buddy" in X.show(n.children[1])]
+    if len(adds) == 1 and brk:
+        ck.holds("C12.6", "sorted-insert@rs_malloc", adds[0].where, "a new arena is inserted before the first arena with a higher address", cfg)
+    elif len(adds) == 1:
+        ck.violated("C12.6", "sorted-insert@rs_malloc", adds[0].where, "new arenas are not inserted in address order, which the lookup by binary search relies on", cfg)
